@@ -229,6 +229,10 @@ def run(ck):
     ck.run_rule("BLK.route", "implicit word lists, constants and labels compiled as statements of a block: values, byte order, the label's address", 1, _route.rule_block_route)
     from . import c17 as _c17
     ck.run_rule("C17.span", "tokens span their own text and Token.text() returns it (the branch encoder looks for '(' and ':' in the operand as written)", 150, _c17.rule_spans)
+    from . import c18 as _c18
+    ck.run_rule("G5.bal", "cycle detection bookkeeping (Awaiting) stays balanced when a cycle is found: DeferredCycle, not an AssertionError, reaches its handler", 18, _c18.rule_balance)
+    from ..rules import escape as _esc
+    ck.run_rule("G16", "no blanket handler inside the package: failures are reported or travel to the last-resort handler, never swallowed", 8, _esc.rule_G16)
     ck.run_rule("C03.R1u", "a name nobody defines: one error, then an integer value and no definition site (no None reaches arithmetic)", 1, c11.rule_undefined_value)
     ck.run_rule("C11.R5", "'.extern all' leaves a usable location (P7)", 4, c11.rule_R5)
     ck.run_rule("C03.R6", "operators applied to not-yet-known operands defer and later evaluate without raising", 9, c03.rule_R6)
